@@ -36,6 +36,8 @@ HDRS = {
     "future": "from __future__ import annotations\nfrom inline_snapshot import snapshot\n",
     "docfuture": '"""doc\n\nsecond line\n"""\nfrom __future__ import annotations\n\nimport os\nfrom inline_snapshot import snapshot\n',
     "coding": "#!/usr/bin/env python\n# -*- coding: utf-8 -*-\n# ünïcödé comment 😀\nfrom inline_snapshot import snapshot\n",
+    # characters that str.splitlines() treats as line ends but the tokenizer does not (form feed, U+2028, U+0085): line tables must agree
+    "pagebreak": "from inline_snapshot import snapshot\n\x0c\n# page two \u2028 same comment\nsep = 'a\x85b'\n",
 }
 
 # «Vi» = observed value expression, «Si» = old text of the argument of the i-th snapshot() call (text order)
@@ -1005,7 +1007,7 @@ def _describe(case):
 
 
 @standin("B-layout", props=["C03", "C20", "C10", "C11"],
-         bound="generated test files through Example.run_inline: 23 statement layouts x 5 headers x 21 argument edits x 6 flag sets, LF/CRLF, "
+         bound="generated test files through Example.run_inline: 23 statement layouts x 6 headers x 21 argument edits x 6 flag sets, LF/CRLF, "
                "formatter-clean and not clean (C03); 9 pyproject [tool.black] variants x 5 shapes x values around the line limit (C20); "
                "Is()/f-string/star-expression/nested-snapshot name inside list/tuple/dict/call at every position (C10); "
                "containers of hand-written element expressions, depth<=2, width<=4, random edit scripts + all sequence pairs over 3 symbols up to length 3 (C11)")
